@@ -69,6 +69,9 @@ CLAIMED['C09'] = dict(design='3, 5 (C09)', engine='MIRBMC', text=BMC_TEXT, techn
 CLAIMED['C17'] = dict(design='5 (C17), 2', note='trusted: MIRSE MIR semantics + std models, ndarray modelled as (shape, row-major data); groups come from the real byte '
     'tokenizer on symbolic texts; sparse matrices from every batch composition over a pool of real tokenizations; padding / tensorisation on '
     'symbolic ids, labels and pad ids; native replay through the `verif` hook views of SparseCoo / tensorised batches')
+CLAIMED['C20'] = dict(design='5 (C20), 2', note='trusted: MIRSE MIR semantics + std models; environment models: in-memory files, thread::spawn + sync_channel '
+    'sequentialised (threads run to completion when the reducer blocks, message order arbitrary), Mutex sequential, progress bar stubbed, word-part '
+    'and punctuation regexes and NFKC modelled on ASCII; corpora of symbolic words over {a, b}; max_size=None defect repaired by a fix commit')
 NOT_YET = 'check not built yet in this session (work in progress, see DESIGN.md section 6 for the order)'
 NA = {}
 
